@@ -696,6 +696,62 @@ func GenGens(g G, pal Palette, allowErr bool) []GenSpec {
 	return gs
 }
 
+// GeneratorizeMid replaces one mid-chain converter of sc -- a single type-only
+// input and a single type-only output, no subtypes, whose input type occurs
+// neither among the supplied values nor among the target's parameters, i.e.
+// only as the result of another converter -- by a converter generator that
+// emits an equivalent converter when it is shown a value of that type. The
+// generator gets to see that type only if the library shows it the values the
+// SUPPLIED converters declare. It reports whether a converter was replaced.
+func GeneratorizeMid(g G, sc *Scenario) bool {
+	outer := map[int]bool{}
+	for _, in := range sc.Inputs {
+		outer[in.L.Type] = true
+	}
+	for _, p := range sc.Target.In {
+		outer[p.Type] = true
+	}
+	var cands []int
+	for i := range sc.Convs {
+		c := &sc.Convs[i]
+		if len(c.In) != 1 || len(c.Out) != 1 || c.Identity || c.ConcreteErr {
+			continue
+		}
+		in, out := c.In[0], c.Out[0]
+		if in.Named() || out.Named() || in.Sub != "" || out.Sub != "" || IsIface(in.Type) || IsIface(out.Type) || in.Type == out.Type || out.Dyn != out.Type || outer[in.Type] {
+			continue
+		}
+		produced := false
+		for j := range sc.Convs {
+			if j == i {
+				continue
+			}
+			for _, o := range sc.Convs[j].Out {
+				if o.Type == in.Type || o.Dyn == in.Type {
+					produced = true
+				}
+			}
+		}
+		if produced {
+			cands = append(cands, i)
+		}
+	}
+	if len(cands) == 0 {
+		return false
+	}
+	i := Pick(g, cands)
+	c := sc.Convs[i]
+	id := 1
+	for _, gs := range sc.Gens {
+		if gs.ID >= id {
+			id = gs.ID + 1
+		}
+	}
+	sc.Gens = append(sc.Gens, GenSpec{ID: id, From: c.In[0].Type, To: c.Out[0].Type, Mode: "conv"})
+	sc.Convs = append(sc.Convs[:i:i], sc.Convs[i+1:]...)
+	return true
+}
+
 var malformedKinds = []string{"nilarg", "nilnamed", "niltyped", "nilnamedsub", "niltypedsub", "nilconv", "intconv", "strconv", "nilconvfunc", "nilfuncptrconv", "structconv", "ptrconv"}
 
 // GenNasty draws scenarios from the classes other profiles avoid (C06).
